@@ -1,7 +1,8 @@
 #!/bin/bash
 # usage: tools/confirm_seed.sh <ID> <mN>   confirms an independently written breaking change in a scratch worktree:
-#   tests pass with it, demo fails with it and passes without it.  On success copies it to /verif/seeded/<ID>-<mN>/.
+#   tests pass with it, demo fails with it and passes without it.  On success copies it to $HERE/seeded/<ID>-<mN>/.
 ID=$1; M=$2
+HERE="$(cd "$(dirname "${BASH_SOURCE[0]}")/.." && pwd)"
 SRC=/tmp/seeded-out/$ID/$M
 WT=/tmp/wt-confirm-$ID-$M
 [ -f $SRC/patch.diff ] || { echo "no patch"; exit 2; }
@@ -15,9 +16,9 @@ tests=$(grep -E "passed|failed" /tmp/confirm.$ID.$M.tests | tail -1)
 PYTHONPATH=$WT /venv/bin/python $SRC/demo.py > /tmp/confirm.$ID.$M.mut 2>&1; rc_mut=$?
 echo "$ID $M: demo clean rc=$rc_clean, demo mutated rc=$rc_mut, tests: $tests"
 if [ $rc_clean -eq 0 ] && [ $rc_mut -ne 0 ] && echo "$tests" | grep -q "42 passed" && ! echo "$tests" | grep -q failed; then
-  mkdir -p /verif/seeded/$ID-$M
-  cp $SRC/patch.diff $SRC/demo.py /verif/seeded/$ID-$M/
-  [ -f $SRC/notes.txt ] && cp $SRC/notes.txt /verif/seeded/$ID-$M/
+  mkdir -p $HERE/seeded/$ID-$M
+  cp $SRC/patch.diff $SRC/demo.py $HERE/seeded/$ID-$M/
+  [ -f $SRC/notes.txt ] && cp $SRC/notes.txt $HERE/seeded/$ID-$M/
   echo CONFIRMED
 else
   echo REJECTED
